@@ -47,6 +47,18 @@ type facts struct {
 	UnknownTypeChecked bool
 	Handlers           []handler
 	ViewDataChecked    bool
+	// pql: Parse's recover filter and the panic sites of the action machine (pql/ast.go)
+	PQLConsts          map[string]string // const name -> text (string constants of pql/parser.go)
+	PQLFilter          []string          // const names Parse tests with strings.HasPrefix before returning an error
+	PQLNonStringIsErr  bool              // a recovered non-string value (runtime error) is returned as an error
+	PQLSites           []pqlSite
+}
+
+type pqlSite struct {
+	Func  string
+	Kind  string // "const": message starts with a named constant; "invariant": literal message
+	Const string // constant name (Kind const)
+	Text  string // message prefix: the constant's text, or the literal up to the first verb
 }
 
 func parse(src string, name string) (*ast.File, *token.FileSet) {
@@ -155,7 +167,7 @@ func lenCheck(s ast.Stmt, v string) int {
 	return 0
 }
 
-func extract(broadcast, api, server string) facts {
+func extract(broadcast, api, server, pqlParser, pqlAst string) facts {
 	var fx facts
 	fx.GetMessage = map[string]string{}
 	// ---- broadcast.go
@@ -349,6 +361,100 @@ func extract(broadcast, api, server string) facts {
 		}
 		fx.Handlers = append(fx.Handlers, h)
 	}
+	// ---- pql/parser.go, pql/ast.go
+	fx.PQLConsts = map[string]string{}
+	pf, _ := parse(pqlParser, "pql/parser.go")
+	for _, d := range pf.Decls {
+		gd, ok := d.(*ast.GenDecl)
+		if !ok || gd.Tok != token.CONST {
+			continue
+		}
+		for _, sp := range gd.Specs {
+			vs := sp.(*ast.ValueSpec)
+			for i, n := range vs.Names {
+				if i < len(vs.Values) {
+					if bl, ok := vs.Values[i].(*ast.BasicLit); ok && bl.Kind == token.STRING {
+						var txt string
+						fmt.Sscanf(bl.Value, "%q", &txt)
+						fx.PQLConsts[n.Name] = txt
+					}
+				}
+			}
+		}
+	}
+	pp := funcDecl(pf, "parser", "Parse")
+	if pp == nil {
+		fail("pql/parser.go: parser.Parse not found")
+	}
+	sawRecover := false
+	ast.Inspect(pp.Body, func(n ast.Node) bool {
+		switch x := n.(type) {
+		case *ast.CallExpr:
+			if id, ok := x.Fun.(*ast.Ident); ok && id.Name == "recover" {
+				sawRecover = true
+			}
+			if sel, ok := x.Fun.(*ast.SelectorExpr); ok && sel.Sel.Name == "HasPrefix" && len(x.Args) == 2 {
+				if id, ok := x.Args[1].(*ast.Ident); ok {
+					fx.PQLFilter = append(fx.PQLFilter, id.Name)
+				}
+			}
+		case *ast.IfStmt:
+			// `if !ok { return nil, fmt.Errorf(...) }` after `errorMessage, ok := v.(string)`
+			if ue, ok := x.Cond.(*ast.UnaryExpr); ok && ue.Op == token.NOT {
+				if id, ok := ue.X.(*ast.Ident); ok && id.Name == "ok" && hasReturn(x.Body) {
+					fx.PQLNonStringIsErr = true
+				}
+			}
+		}
+		return true
+	})
+	if !sawRecover {
+		fail("pql/parser.go: no recover() in parser.Parse")
+	}
+	af2, _ := parse(pqlAst, "pql/ast.go")
+	for _, d := range af2.Decls {
+		fd, ok := d.(*ast.FuncDecl)
+		if !ok || fd.Body == nil {
+			continue
+		}
+		ast.Inspect(fd.Body, func(n ast.Node) bool {
+			call, ok := n.(*ast.CallExpr)
+			if !ok {
+				return true
+			}
+			id, ok := call.Fun.(*ast.Ident)
+			if !ok || id.Name != "panic" || len(call.Args) != 1 {
+				return true
+			}
+			site := pqlSite{Func: fd.Name.Name, Kind: "invariant"}
+			if sp, ok := call.Args[0].(*ast.CallExpr); ok && len(sp.Args) >= 1 {
+				if bl, ok := sp.Args[0].(*ast.BasicLit); ok && bl.Kind == token.STRING {
+					var f string
+					fmt.Sscanf(bl.Value, "%q", &f)
+					if strings.HasPrefix(f, "%s") && len(sp.Args) >= 2 {
+						if cid, ok := sp.Args[1].(*ast.Ident); ok {
+							if txt, isConst := fx.PQLConsts[cid.Name]; isConst {
+								site.Kind, site.Const, site.Text = "const", cid.Name, txt
+							}
+						}
+					}
+					if site.Kind == "invariant" {
+						if i := strings.IndexByte(f, '%'); i >= 0 {
+							f = f[:i]
+						}
+						site.Text = f
+					}
+				}
+			} else if bl, ok := call.Args[0].(*ast.BasicLit); ok && bl.Kind == token.STRING {
+				fmt.Sscanf(bl.Value, "%q", &site.Text)
+			}
+			fx.PQLSites = append(fx.PQLSites, site)
+			return true
+		})
+	}
+	if len(fx.PQLSites) == 0 {
+		fail("pql/ast.go: no panic sites found (the extractor no longer understands the file)")
+	}
 	return fx
 }
 
@@ -385,6 +491,19 @@ func render(fx facts) string {
 		}
 		rows = append(rows, fmt.Sprintf("  (%q, [%s])", h.Msg, strings.Join(ls, ", ")))
 	}
+	sb.WriteString(strings.Join(rows, ",\n") + "]\n\n")
+	sb.WriteString("/-- pql/parser.go Parse: message prefixes (string constants) for which a recovered string panic\nis returned as an error; any other string panic is re-panicked. -/\ndef pqlFilterPrefixes : List String := [")
+	var fs []string
+	for _, n := range fx.PQLFilter {
+		fs = append(fs, fmt.Sprintf("%q", fx.PQLConsts[n]))
+	}
+	sb.WriteString(strings.Join(fs, ", ") + "]\n\n")
+	fmt.Fprintf(&sb, "/-- a recovered non-string value (a runtime error inside Execute) is returned as an error. -/\ndef pqlNonStringIsError : Bool := %s\n\n", leanBool(fx.PQLNonStringIsErr))
+	sb.WriteString("/-- panic sites of the action machine (pql/ast.go): function, kind (`const`: the message starts with\nthe named string constant; `invariant`: a literal message guarding an internal invariant), message prefix. -/\ndef pqlPanicSites : List (String × String × String) := [\n")
+	rows = nil
+	for _, st := range fx.PQLSites {
+		rows = append(rows, fmt.Sprintf("  (%q, %q, %q)", st.Func, st.Kind, st.Text))
+	}
 	sb.WriteString(strings.Join(rows, ",\n") + "]\n\nend PV.C06.Gen\n")
 	return sb.String()
 }
@@ -397,8 +516,8 @@ func read(p string) string {
 	return string(b)
 }
 
-func selftest(broadcast, api, server string) {
-	base := extract(broadcast, api, server)
+func selftest(broadcast, api, server, pqlParser, pqlAst string) {
+	base := extract(broadcast, api, server, pqlParser, pqlAst)
 	type mut struct {
 		name string
 		run  func() facts
@@ -413,7 +532,7 @@ func selftest(broadcast, api, server string) {
 	muts := []mut{
 		{"nil check of DeleteFieldMessage's index removed",
 			func() facts {
-				return extract(broadcast, api, mustReplace(server, "case *DeleteFieldMessage:\n\t\tidx := s.holder.Index(obj.Index)\n\t\tif idx == nil {", "case *DeleteFieldMessage:\n\t\tidx := s.holder.Index(obj.Index)\n\t\tif false {"))
+				return extract(broadcast, api, mustReplace(server, "case *DeleteFieldMessage:\n\t\tidx := s.holder.Index(obj.Index)\n\t\tif idx == nil {", "case *DeleteFieldMessage:\n\t\tidx := s.holder.Index(obj.Index)\n\t\tif false {"), pqlParser, pqlAst)
 			},
 			func(f facts) bool {
 				for _, h := range f.Handlers {
@@ -424,16 +543,40 @@ func selftest(broadcast, api, server string) {
 				return false
 			}},
 		{"empty-body check removed from ClusterMessage",
-			func() facts { return extract(broadcast, mustReplace(api, "if len(body) == 0 {", "if false {"), server) },
+			func() facts { return extract(broadcast, mustReplace(api, "if len(body) == 0 {", "if false {"), server, pqlParser, pqlAst) },
 			func(f facts) bool { return !f.BodyLenChecked }},
 		{"getMessage default panics again",
-			func() facts { return extract(mustReplace(broadcast, "\t\treturn nil\n\t}\n}", "\t\tpanic(\"unknown\")\n\t}\n}"), api, server) },
+			func() facts { return extract(mustReplace(broadcast, "\t\treturn nil\n\t}\n}", "\t\tpanic(\"unknown\")\n\t}\n}"), api, server, pqlParser, pqlAst) },
 			func(f facts) bool { return f.DefaultPanics && !f.UnknownTypeChecked }},
 		{"viewData length check removed from importWorker",
-			func() facts { return extract(broadcast, mustReplace(api, "if len(viewData) < 2 {", "if false {"), server) },
+			func() facts { return extract(broadcast, mustReplace(api, "if len(viewData) < 2 {", "if false {"), server, pqlParser, pqlAst) },
 			func(f facts) bool { return !f.ViewDataChecked }},
+		{"invalid-string-literal prefix dropped from Parse's recover filter",
+			func() facts {
+				return extract(broadcast, api, server, mustReplace(pqlParser, " || strings.HasPrefix(errorMessage, invalidStringLiteralError)", ""), pqlAst)
+			},
+			func(f facts) bool {
+				in := false
+				for _, n := range f.PQLFilter {
+					in = in || n == "invalidStringLiteralError"
+				}
+				return !in && len(f.PQLFilter) == 2
+			}},
+		{"a new named panic prefix in the action machine",
+			func() facts {
+				return extract(broadcast, api, server, mustReplace(pqlParser, "const intOutOfRangeError", "const brandNewError = \"brand new\"\nconst intOutOfRangeError"),
+					mustReplace(pqlAst, "panic(fmt.Sprintf(\"%s: %s\", intOutOfRangeError, err))", "panic(fmt.Sprintf(\"%s: %s\", brandNewError, err))"))
+			},
+			func(f facts) bool {
+				for _, st := range f.PQLSites {
+					if st.Kind == "const" && st.Const == "brandNewError" {
+						return true
+					}
+				}
+				return false
+			}},
 	}
-	ok := base.BodyLenChecked && base.UnknownTypeChecked && base.ViewDataChecked
+	ok := base.BodyLenChecked && base.UnknownTypeChecked && base.ViewDataChecked && len(base.PQLFilter) >= 1 && base.PQLNonStringIsErr
 	what := []string{}
 	for _, m := range muts {
 		if !m.bad(m.run()) {
@@ -444,7 +587,7 @@ func selftest(broadcast, api, server string) {
 		}
 	}
 	v := map[string]interface{}{"ok": ok, "evaluations": len(muts), "distinct_nontrivial": len(muts), "found": false,
-		"what": "translator self-test on mutated copies of broadcast.go/api.go/server.go: " + strings.Join(what, "; ")}
+		"what": "translator self-test on mutated copies of broadcast.go/api.go/server.go/pql/parser.go/pql/ast.go: " + strings.Join(what, "; ")}
 	b, _ := json.Marshal(v)
 	fmt.Println(string(b))
 }
@@ -457,11 +600,13 @@ func main() {
 	broadcast := read(filepath.Join(*repo, "broadcast.go"))
 	api := read(filepath.Join(*repo, "api.go"))
 	server := read(filepath.Join(*repo, "server.go"))
+	pqlParser := read(filepath.Join(*repo, "pql", "parser.go"))
+	pqlAst := read(filepath.Join(*repo, "pql", "ast.go"))
 	if *st {
-		selftest(broadcast, api, server)
+		selftest(broadcast, api, server, pqlParser, pqlAst)
 		return
 	}
-	fx := extract(broadcast, api, server)
+	fx := extract(broadcast, api, server, pqlParser, pqlAst)
 	txt := render(fx)
 	if *out == "" {
 		fmt.Print(txt)
